@@ -59,7 +59,7 @@ def run(ctx):
                'fits are compared with the numeric reference (C01/C02) per variant, which is what "agree" means up to the float32 memmap bound')
     ctx.require_events('ConvolvedFluxes.sort_to_match:post', 'file:checked', 'twin:compared', 'fit:checked')
     ctx.require_regimes('gz', 'subdir', 'mixed-order', 'cube:desc', 'cube:asc', 'f32', 'n_ap>1', 'n_ap=1', 'memmap:on', 'memmap:off', 'filters>1')
-    n_pkg = 7 if ctx.quick else 40
+    n_pkg = 7 if ctx.quick else 120
     for ip in range(n_pkg):
         n_m = int(rng.integers(1, 9))
         n_ap = int(rng.integers(1, 6))
